@@ -20,7 +20,8 @@ echo "demo without patch: rc=$RC_C"
 if [ "$PASSED" = "87" ] && [ $RC_P -ne 0 ] && [ $RC_C -eq 0 ]; then
   mkdir -p $OUT
   cp $M/patch$N.diff $OUT/patch.diff
-  for f in $M/demo$N.* $M/demo${N}_* $M/run$N.sh $M/notes$N.md $M/*.h $M/*.py; do [ -f "$f" ] && [ $(stat -c %s "$f") -lt 400000 ] && cp "$f" $OUT/; done
+  HELPERS=$(ls $M/*.sh 2>/dev/null | grep -v "/run[0-9]*\.sh$")
+  for f in $M/demo$N.* $M/demo${N}_* $M/run$N.sh $M/notes$N.md $M/*.h $M/*.py $M/*.inc $M/*.hpp $HELPERS; do [ -f "$f" ] && [ $(stat -c %s "$f") -lt 400000 ] && cp "$f" $OUT/; done
   tail -5 $ROOT/run-$ID-$N-patched.out > $OUT/demo_output_patched.txt
   python3 - <<PY
 import json
